@@ -37,6 +37,17 @@ def _violations(mod, sources) -> List[tuple]:
     return viol, len(rep.obligations)
 
 
+def _is_pinned_tree(prog) -> bool:
+    import json
+
+    path = os.path.join(os.path.dirname(__file__), "pinned_tree.json")
+    try:
+        with open(path) as fh:
+            return json.load(fh).get("digest") == prog.digest()
+    except Exception:
+        return False
+
+
 def _one(args):
     modname, vname, sources = args
     import importlib
@@ -89,8 +100,11 @@ def run(mod, prog: Program, rep: engine.Reporter, tier: str, seed: int) -> Dict:
         row = {"variant": vname, "kind": v.kind, "status": status}
         if status == "n/a":
             rows.append(row)
-            if os.environ.get("SA_STRICT_VARIANTS"):
-                failures.append(f"variant {vname} is not applicable on this tree (strict mode)")
+            # On the tree the variants were written for (digest recorded in sa/pinned_tree.json) a variant whose anchor does
+            # not match has never been exercised: that is a defect of the self-test, not a pass.  On any other tree the
+            # variant simply does not apply.
+            if os.environ.get("SA_STRICT_VARIANTS") or _is_pinned_tree(prog):
+                failures.append(f"variant {vname} is not applicable on this tree (its anchor does not match: it was never exercised)")
             continue
         if status == "error":
             failures.append(f"{vname}: {info}")
